@@ -90,6 +90,17 @@ CHECKS["C12"] = dict(
   text="All sequences to the depth bound over an alphabet of 163-360 concrete commands (every command of the property with its option variants, 2-3 keys, 2-3 transactions, pairwise distinct timestamps in every order) from two root states; every answer (error class + payload a client acts on) and a full observation set (gets at every timestamp, scans, reverse scans, lock scans) are compared with the model, and the stated laws are invariants of every reached state. The 'randomly beyond' clause of the property is replaced by deeper exhaustive bounds.",
   note="Trusted: the reference model rt/models/refmvcc, written from TiKV's documented semantics and the property text; behaviours on which the text is silent are tolerated and listed in the evidence.")
 
+CHECKS["C13"] = dict(
+  engine="parksched", category="model_checking", design="5/C13",
+  technique="stateless model checking of the real pdOracle: controlled scheduler with points at call start, PD issue, PD deliver and the pointer Load/Store/CompareAndSwap steps of the cached-timestamp update (import-rewritten sync/atomic), exhaustive DFS with a preemption bound; plus exhaustive script enumeration for commit-wait and the adaptive update interval",
+  text="All unordered pairs (quick) / triples (thorough) of 40 caller programs, every interleaving with <= 2 preemptions of issue / deliver / atomic steps and an optional background tick; a per-step monitor reads the cached timestamp white-box. Sequential parts: all PD answer scripts of length <= 4 over {c-1, c, c+1, error} x timeouts for the commit-wait, a full grid for the adaptive interval and the expiry pair.",
+  note="Trusted: scripted PD (issue and deliver are separate transitions), atomic shim (rt/c13atomic) and ticker-by-scenario clock shim (rt/c13x/ctime) injected by import rewriting of oracle/oracles/pd.go; sync.Map / mutex / singleflight internals are not points.")
+CHECKS["C14"] = dict(
+  engine="parksched", category="model_checking", design="5/C14",
+  technique="crash-point enumeration of two victim transactions followed by the real GC lock resolution as an explored actor (scan limit 1..3, region split before any of its RPCs), under the controlled scheduler; plus exhaustive grids on the real range task / delete-range task / safe-point check",
+  text="Lock populations are produced by crashing two victims at every combination of seam events within the fault budget (committed primary with unresolved secondaries, rolled back, pending, async-commit, 1PC, pessimistic locks), then tikv.ResolveLocksForRange runs with every scan limit and an optional split; after a successful pass no lock <= safe point remains, committed versions are unchanged and every victim is all-or-nothing and ack-consistent. RunOnRange is run over every layout x range x concurrency x regions-per-task x failing sub-range, DeleteRangeTask over the same grid against a map, snapshot reads at sp-1 / sp / sp+1.",
+  note=TXN_NOTE + " GC starts only after every transaction below the safe point ended or crashed; lock-only keys are avoided on unistore (it keeps no commit record for them).")
+
 PENDING = {}
 for p in ALL:
     if p not in CHECKS:
@@ -109,7 +120,7 @@ def main():
      "engines": [
       {"name": "enum", "path": "harness/c19", "serves_properties": ["C15", "C19"], "kind_free_text": "bounded exhaustive input enumeration against laws/reference decoders"},
       {"name": "envx", "path": "harness/c10", "serves_properties": ["C10"], "kind_free_text": "deviation-bounded enumeration of environment answers (fault scripts) on sequential code"},
-      {"name": "parksched", "path": "rt/sched", "serves_properties": ["C01", "C02", "C03", "C04", "C06"], "kind_free_text": "controlled scheduler for real goroutines parked at seam points + deviation-bounded stateless DFS (preemption / fault budgets), replay by event identity, sharded over worker processes"},
+      {"name": "parksched", "path": "rt/sched", "serves_properties": ["C01", "C02", "C03", "C04", "C06", "C13", "C14"], "kind_free_text": "controlled scheduler for real goroutines parked at seam points + deviation-bounded stateless DFS (preemption / fault budgets), replay by event identity, sharded over worker processes"},
       {"name": "seqx", "path": "harness/c17", "serves_properties": ["C07", "C08", "C09", "C11", "C12", "C17", "C20"], "kind_free_text": "explicit-state BFS over operation sequences of real objects against a reference model"},
      ],
      "checks": [],
